@@ -299,8 +299,9 @@ CLAIMED = {
              "level (`RMod.toFParsed` = what the regular expressions deliver, `RMod.toModule` = what the grammar delivers); "
              "that the real regexes / lark deliver exactly these for every legal layout is tied by the differential run "
              "(regex engine vs CPython `re` on the extracted patterns, text -> circuit exact) only.",
-        note=TRUST + " `Restricted`: every net an input or driven exactly once, every net read is driven, unary gates have "
-             "one operand, named ports of a known blackbox, names not colliding with either parser's constant nodes.",
+        note=TRUST + " `Restricted`: every net an input or driven at most once (floating wires allowed since the K38 "
+             "repair), declared outputs driven, unary gates have one operand, named ports of a known blackbox, names not "
+             "colliding with either parser's constant nodes.",
         ref="§4 C14"),
 }
 
